@@ -460,3 +460,5 @@ def _documented_defaults(env, cfg):
 
 
 META['explanation'] += ' documented_defaults: the default storage / imputer / sample count of every explainer equal the objects named in the docstrings, attribute by attribute.'
+
+META['explanation'] += ' given_objects: configuration snapshot of every given storage / imputer / wrapper / name list unchanged by the constructor; the constructor does not evaluate the loss.'
